@@ -360,6 +360,9 @@ def run_property(pid: str, tier: str, seed: int) -> int:
     t0 = time.time()
     mod = load_property(pid)
     layers = mod.layers(tier, seed)
+    only = os.environ.get('VERIF_LAYERS')        # debugging aid: run only layers whose name contains this substring
+    if only:
+        layers = [l for l in layers if only in l.name]
     _LAYERS = layers
     cap = float(os.environ.get('VERIF_TIME_CAP', '0') or 0) or (getattr(mod, 'THOROUGH_CAP_S', 1500.0) if tier == 'thorough' else 0)
     deadline_all = (t0 + cap) if cap else None
